@@ -594,8 +594,10 @@ impl DBM {
         proof: &MisbehaviorProof,
     ) -> Result<(), SqliteError> {
         let tx = self.get_mut_connection().transaction().unwrap();
+        // The tower may have handed a (valid) receipt for this very appointment before, e.g. if the same commitment revocation
+        // is notified twice. The receipt that proves the misbehavior takes its place.
         tx.execute(
-            "INSERT INTO appointment_receipts (tower_id, locator, start_block, user_signature, tower_signature) 
+            "INSERT OR REPLACE INTO appointment_receipts (tower_id, locator, start_block, user_signature, tower_signature) 
                 VALUES (?1, ?2, ?3, ?4, ?5)",
             params![
                 tower_id.to_vec(),
